@@ -340,6 +340,41 @@ func main() {
 		})
 	}
 	w("def workerChanCaps : List Nat := [%s]", strings.Join(wcaps, ", "))
+	// Worker.start: every send on w.output is a plain statement of the task case (not one arm of a
+	// select that may give up), and the ctx.Done() arm closes w.output
+	plainSends, otherSends, cancelCloses := 0, 0, false
+	if fd := funcDecl(wf, "start"); fd != nil {
+		var inComm []bool
+		var walk func(n ast.Node, inSelectArm bool)
+		_ = inComm
+		walk = func(n ast.Node, inSelectArm bool) {
+			ast.Inspect(n, func(m ast.Node) bool {
+				switch v := m.(type) {
+				case *ast.CommClause:
+					// the communication of the arm itself
+					if ss, ok := v.Comm.(*ast.SendStmt); ok && render(ss.Chan) == "w.output" {
+						otherSends++
+					}
+					if es, ok := v.Comm.(*ast.ExprStmt); ok && strings.Contains(render(es.X), "ctx.Done()") {
+						for _, st := range v.Body {
+							if x, ok := st.(*ast.ExprStmt); ok && render(x.X) == "close(w.output)" {
+								cancelCloses = true
+							}
+						}
+					}
+					for _, st := range v.Body {
+						if ss, ok := st.(*ast.SendStmt); ok && render(ss.Chan) == "w.output" {
+							plainSends++
+						}
+					}
+				}
+				return true
+			})
+		}
+		walk(fd.Body, false)
+	}
+	w("def workerOutputSends : List Nat := [%d, %d]", plainSends, otherSends)
+	w("def workerCancelClosesOutput : Bool := %s", lbool(cancelCloses))
 
 	// dispatch tables
 	w("def funcs : List String := %s", lstr(mapKeys(find(files, "execution/function/functions.go"), "Funcs")))
